@@ -716,22 +716,25 @@ class MessageType:
         # kingdoms/{kingdom}/phyla/{phylum}
         # becomes the regex
         # ^kingdoms/(?P<kingdom>.+?)/phyla/(?P<phylum>.+?)$
+        # The literal text between the variables is escaped: delimiters such
+        # as `.` are permitted by AIP4231 and must only match themselves.
+        parts = self.PATH_ARG_RE.split(self.resource_path or "")
         parsing_regex_str = (
             "^"
-            + self.PATH_ARG_RE.sub(
+            + "".join(
                 # We can't just use (?P<name>[^/]+) because segments may be
                 # separated by delimiters other than '/'.
                 # Multiple delimiter characters within one schema are allowed,
                 # e.g.
                 # as/{a}-{b}/cs/{c}%{d}_{e}
                 # This is discouraged but permitted by AIP4231
-                lambda m: "(?P<{name}>.+?)".format(name=m.groups()[0]),
-                self.resource_path or "",
+                "(?P<{name}>.+?)".format(name=part) if i % 2 else re.escape(part)
+                for i, part in enumerate(parts)
             )
             + "$"
         )
         # Special case for wildcard resource names
-        if parsing_regex_str == "^*$":
+        if self.resource_path == "*":
             parsing_regex_str = "^.*$"
 
         return parsing_regex_str
